@@ -25,6 +25,7 @@ type c12Case struct {
 	First  int   `json:"first,omitempty"`  // which call comes first: 0 PDF, 1 CDF, 2 Bounds
 	Bounds bool  `json:"bounds,omitempty"` // call Bounds()
 	Quad   bool  `json:"quad,omitempty"`   // quadrature observables
+	Sorted bool  `json:"sorted,omitempty"` // Sample.Sorted (only on ascending Xs): must not change any result
 }
 
 func c12Kernel(k int) stats.KDEKernel {
@@ -104,8 +105,11 @@ func c12Run(raw []byte) (*Line, error) {
 		return nil, fmt.Errorf("image series too long (lazy bandwidth)")
 	}
 	sort.Float64s(pts)
+	if c.Sorted && !sort.Float64sAreSorted(xs) {
+		return nil, fmt.Errorf("Sorted flag on data that is not ascending: outside the property")
+	}
 
-	sample := stats.Sample{Xs: xs, Weights: ws}
+	sample := stats.Sample{Xs: xs, Weights: ws, Sorted: c.Sorted}
 	xs0 := append([]float64(nil), xs...)
 	var ws0 []float64
 	if ws != nil {
@@ -116,7 +120,7 @@ func c12Run(raw []byte) (*Line, error) {
 
 	// the bandwidth rules, on a separate copy of the sample
 	{
-		s2 := stats.Sample{Xs: append([]float64(nil), xs...)}
+		s2 := stats.Sample{Xs: append([]float64(nil), xs...), Sorted: c.Sorted}
 		if ws != nil {
 			s2.Weights = append([]float64{}, ws...)
 		}
@@ -291,7 +295,8 @@ func c12Run(raw []byte) (*Line, error) {
 	} else {
 		unmod = unmod && kde.Sample.Weights == nil
 	}
-	l.B(unmod)
+	l.B(unmod && kde.Sample.Sorted == c.Sorted)
+	l.B(c.Sorted)
 	return l, nil
 }
 
@@ -485,6 +490,9 @@ func c12Random(rng *rand.Rand, kernel, conf, n int) c12Case {
 	}
 	c.Bounds = rng.Intn(2) == 0
 	c.Quad = kernel != 2 && rng.Intn(2) == 0
+	if rng.Intn(3) == 0 {
+		c = c12SortCase(c)
+	}
 	return c
 }
 
@@ -657,6 +665,141 @@ func c12Size(rng *rand.Rand) int {
 	}
 }
 
+// c12SortCase puts the sample in ascending order (weights stay with their values) and sets the
+// Sorted flag: the documented fast paths of Sample (Bounds, Quantile without sorting) and any
+// other use of the flag must not change a result.
+func c12SortCase(c c12Case) c12Case {
+	n := len(c.Xs)
+	idx := make([]int, n)
+	for i := range idx {
+		idx[i] = i
+	}
+	sort.SliceStable(idx, func(a, b int) bool { return float64(c.Xs[idx[a]]) < float64(c.Xs[idx[b]]) })
+	xs := make([]F64, n)
+	for i, j := range idx {
+		xs[i] = c.Xs[j]
+	}
+	if c.HasW && len(c.Ws) == n {
+		ws := make([]F64, n)
+		for i, j := range idx {
+			ws[i] = c.Ws[j]
+		}
+		c.Ws = ws
+	}
+	c.Xs = xs
+	c.Sorted = true
+	return c
+}
+
+// c12SortedGrid: ascending data with non-uniform weights and bandwidths smaller than the spread
+// (a window of the sample reaches each x), every kernel x boundary configuration x weighted.
+func c12SortedGrid(emit func(c interface{})) {
+	inf := math.Inf(1)
+	xs := []float64{0, 1, 2.5, 4, 7, 7, 9}
+	wts := []float64{1, 3, 2, 5, 1, 4, 2}
+	for kernel := 0; kernel < 3; kernel++ {
+		for conf := 0; conf < 4; conf++ {
+			for w := 0; w < 2; w++ {
+				for _, h := range []float64{1, 3} {
+					if kernel == 2 && h != 1 {
+						continue
+					}
+					c := c12Case{Xs: toF64s(xs), Kernel: kernel, H: F64(h), Bounds: true, Quad: kernel != 2, Sorted: true}
+					if w == 1 {
+						c.HasW, c.Ws = true, toF64s(wts)
+					}
+					switch conf {
+					case 1:
+						c.Bmin, c.Bmax = -0.5, F64(inf)
+					case 2:
+						c.Bmin, c.Bmax = F64(-inf), 9.5
+					case 3:
+						c.Bmin, c.Bmax = -0.5, 9.5
+					}
+					var pts []float64
+					for q := -4; q <= 22; q++ {
+						pts = append(pts, float64(q)/2)
+					}
+					c.Pts = toF64s(pts)
+					c.First = (kernel + conf + w) % 3
+					emit(c)
+				}
+			}
+		}
+	}
+}
+
+// c12OffsetCase: data = offset + small spread with |offset| / spread between 1e4 and 1e9 (exact:
+// values with 6 fractional bits below a multiple of a power of two), no boundary (reflections
+// would round at the magnitude of the offset), unweighted: the bandwidth rules and the lazily
+// filled Bandwidth must keep their relative accuracy ("1.06*s*n^(-1/5)" to within rounding).
+func c12OffsetCase(rng *rand.Rand, kernel int, lazy bool) c12Case {
+	n := 2 + rng.Intn(39)
+	small := make([]float64, n)
+	for i := range small {
+		switch rng.Intn(3) {
+		case 0:
+			small[i] = float64(rng.Intn(17) - 8)
+		default:
+			small[i] = float64(rng.Intn(1<<10)-(1<<9)) / 64
+		}
+	}
+	small[0], small[n-1] = -3, 5 // at least two distinct values
+	if n > 4 && rng.Intn(3) == 0 {
+		for i := 1; i < n-1; i++ {
+			if rng.Intn(2) == 0 {
+				small[i] = small[1+rng.Intn(n-2)] // ties: IQR branch
+			}
+		}
+	}
+	_, _, spread := c12Spread(small)
+	// |offset| = m * 2^e with offset/spread in [1e4, 1e9]
+	ratio := math.Exp(math.Log(1e4) + rng.Float64()*(math.Log(1e9)-math.Log(1e4)))
+	if rng.Intn(4) == 0 {
+		ratio = []float64{1e4, 1e6, 1e8, 1e9}[rng.Intn(4)]
+	}
+	off := giDyadic(ratio*spread, 0)
+	_, ex := math.Frexp(off)
+	if ex > 12 {
+		off = math.Ldexp(math.Round(math.Ldexp(off, 12-ex)), ex-12) // 12 significant bits
+	}
+	if rng.Intn(2) == 0 {
+		off = -off
+	}
+	xs := make([]float64, n)
+	for i := range xs {
+		xs[i] = off + small[i]
+	}
+	lo, hi, spread := c12Spread(xs)
+	c := c12Case{Xs: toF64s(xs), Kernel: kernel}
+	h := 0.0
+	r := spread / 2
+	if !lazy {
+		h = giDyadic(spread*(0.05+rng.Float64()), 6)
+		r = h
+	}
+	c.H = F64(h)
+	var pts []float64
+	for i := 0; i <= 12; i++ {
+		pts = append(pts, giDyadic(lo-1.5*r+(hi-lo+3*r)*float64(i)/12, 8))
+	}
+	for j := 0; j < 3; j++ {
+		xi := xs[rng.Intn(n)]
+		pts = append(pts, xi)
+		if h > 0 {
+			pts = append(pts, xi+h, xi-h)
+		}
+	}
+	c.Pts = toF64s(pts)
+	c.First = rng.Intn(3)
+	c.Bounds = rng.Intn(2) == 0 || c.First == 2
+	c.Quad = kernel != 2 && rng.Intn(2) == 0
+	if rng.Intn(3) == 0 {
+		c = c12SortCase(c)
+	}
+	return c
+}
+
 func c12Gen(tier string, rng *rand.Rand, emit func(c interface{})) {
 	thorough := tier == "thorough"
 	c12Thin = !thorough
@@ -670,6 +813,15 @@ func c12Gen(tier string, rng *rand.Rand, emit func(c interface{})) {
 
 	// ---- deterministic feature grid (both tiers)
 	c12Grid(emit)
+	c12SortedGrid(emit)
+	// ---- offset dimension (bandwidth rules, lazy bandwidth): |offset| up to 1e9 spreads
+	noff := 36
+	if thorough {
+		noff = 400
+	}
+	for i := 0; i < noff; i++ {
+		emit(c12OffsetCase(rng, i%3, i%2 == 0))
+	}
 
 	// ---- exhaustive small space: multisets of size 1..3 over {0,1,2,3}, half-integer
 	// bandwidths, boundaries on the half-integer grid, points on the quarter-integer grid:
